@@ -169,3 +169,21 @@ func VerifC19Catalog(h *verifh.H) {
 	}
 	h.Observe("cur", cur)
 }
+
+// vItems returns the items counter of a dataset's live meta-entity in
+// core.Dataset, rendered ("" if there is no live meta-entity).
+func vItems(h *verifh.H, hub *VHub, name string) string {
+	info, err := hub.Store.NamespaceManager.GetDatasetNamespaceInfo()
+	h.Assert(err == nil, "dataset namespace known")
+	core := hub.Dsm.GetDataset("core.Dataset")
+	res, err := core.GetEntities("", -1)
+	h.Assert(err == nil, "core.Dataset readable")
+	out := ""
+	for _, e := range res.Entities {
+		n, _ := e.Properties[info.NameKey].(string)
+		if n == name && !e.IsDeleted {
+			out = vRenderVal(e.Properties[info.ItemsKey])
+		}
+	}
+	return out
+}
